@@ -393,8 +393,11 @@ func c11Stream(r *hx.Rand, tier string, n int, w *bufio.Writer) map[string]int {
 	rtypes := []oidc.ResponseType{oidc.ResponseTypeCode, oidc.ResponseTypeCode, oidc.ResponseTypeIDToken, oidc.ResponseTypeIDTokenOnly}
 	errCtors := []func() *oidc.Error{oidc.ErrAccessDenied, oidc.ErrInvalidRequest, oidc.ErrInvalidScope, oidc.ErrLoginRequired, oidc.ErrInteractionRequired, oidc.ErrServerError, oidc.ErrRequestNotSupported}
 
+	// source-traced flows: both routers, with and without request-object support
+	srcBeds := []*c11SrcBed{c11NewSrcBed("provider", true), c11NewSrcBed("legacy", true), c11NewSrcBed("provider", false), c11NewSrcBed("legacy", false)}
+
 	for caseNo := 0; caseNo < n; caseNo++ {
-		kind := hx.Pick(r, "url", "url", "url", "form", "form", "code", "code", "token", "error", "error", "tryerror", "flow")
+		kind := hx.Pick(r, "url", "url", "url", "form", "form", "code", "code", "token", "error", "error", "tryerror", "flow", "src", "src", "src")
 		mode := modes[r.Intn(len(modes))]
 		rtype := rtypes[r.Intn(len(rtypes))]
 		u := c11URIs[r.Intn(len(c11URIs))]
@@ -418,8 +421,25 @@ func c11Stream(r *hx.Rand, tier string, n int, w *bufio.Writer) map[string]int {
 		var produced map[string][]string
 		var reqState []string // handler kinds: state and session_state of the authorization request
 		var obs c11Obs
+		var srcFields func(l *hx.Line)
 		req := httptest.NewRequest(http.MethodGet, "/authorize/callback?id=x", nil)
 		switch kind {
+		case "src":
+			sr, ok := c11SrcCase(r, srcBeds, tier, stats)
+			if !ok {
+				continue
+			}
+			u, mode, rtype, isErr, sub, produced, obs, srcFields = sr.u, sr.mode, sr.rtype, sr.isErr, sr.sub, sr.produced, sr.obs, sr.src
+			m := string(mode)
+			if m == "" {
+				m = "default"
+			}
+			stats["state-channel:"+sr.stChannel+"/"+m]++
+			stats["src-outcome:"+sr.outcome+"/"+sr.who]++
+			if sr.errClass != "" {
+				stats["error-text-class:"+sr.errClass+"/"+m]++
+				stats["error-kind:"+sr.errKind+"/"+sr.outcome]++
+			}
 		case "url", "form":
 			if kind == "form" {
 				mode = oidc.ResponseModeFormPost
@@ -630,6 +650,9 @@ func c11Stream(r *hx.Rand, tier string, n int, w *bufio.Writer) map[string]int {
 			}
 		}
 		l.B("pct", pct).B("safe", c11SafeScheme(u.s)).B("direct", kind == "url" || kind == "tryerror")
+		if srcFields != nil {
+			srcFields(l)
+		}
 		l.S("obs", obs.kind)
 		switch obs.kind {
 		case "redirect":
